@@ -662,9 +662,16 @@ def r41(ctx: Ctx) -> RuleReport:
                     + ' -> '.join(repr(cfg.nodes[x]) for x in stale[-4:])[:200] + '): once set it stays set, so how an earlier separator was written '
                     'changes how a later role is read (a role that itself starts with "^" loses its first character)' if stale else '')
     # the loop goes on to another conjunct only after a SYMBOL that starts with "^" was seen; the flag says whether the sign was glued to the role
+    caret_flags = set()
+    for f_ in local_callees(ctx, pt, depth=1):
+        for n_ in walk_local(f_.node):
+            if isinstance(n_, ast.If) and "'^'" in norm(n_.test) and any(isinstance(x, ast.Assign) and isinstance(x.value, ast.Subscript) for x in n_.body):
+                caret_flags |= {x.id for x in ast.walk(n_.test) if isinstance(x, ast.Name)} - {'role'}
+    caret_flags = {c_ for c_ in caret_flags if any(isinstance(n_, ast.Assign) and isinstance(n_.targets[0], ast.Name) and n_.targets[0].id == c_ and isinstance(n_.value, ast.Constant)
+                                                   for n_ in walk_local(pt.node))}
     for loop in [n for n in walk_local(pt.node) if isinstance(n, (ast.While, ast.For))]:
         fl_assigns = [n for n in ast.walk(loop) if isinstance(n, ast.Assign) and isinstance(n.targets[0], ast.Name) and isinstance(n.value, ast.Constant)
-                      and isinstance(n.value.value, bool)]
+                      and isinstance(n.value.value, bool) and n.targets[0].id in caret_flags]
         for a in fl_assigns:
             fx = facts_ex(ctx, pt, a)
             srcs = {(f.replace(' ', ''), pol) for f, pol in fx}
@@ -689,7 +696,7 @@ def r41(ctx: Ctx) -> RuleReport:
                 rep.undecided(kx, pt.loc(a), 'no test whether the sign stands alone')
     # before the first conjunct there is no sign to take off
     for nm in {n.targets[0].id for n in walk_local(pt.node) if isinstance(n, ast.Assign) and isinstance(n.targets[0], ast.Name) and isinstance(n.value, ast.Constant)
-               and isinstance(n.value.value, bool)}:
+               and isinstance(n.value.value, bool)} & caret_flags:
         inits = [n for n in pt.node.body if isinstance(n, ast.Assign) and isinstance(n.targets[0], ast.Name) and n.targets[0].id == nm and isinstance(n.value, ast.Constant)]
         for i0 in inits:
             rep.add(f'penman._parse:_parse_triples: `{nm}` starts out false (no conjunction sign precedes the first conjunct)', pt.loc(i0),
